@@ -3,4 +3,251 @@ import Reduino.Fw.Inputs
 import Reduino.Host.Core
 /- helper lemmas for Props/C15.lean -/
 namespace Reduino.Lemmas.C15
+open Reduino Reduino.Fw
+
+/-! ### Button -/
+
+theorem passes_spec (b : Button) (sig : List Bool) :
+    b.passes sig = List.zipWith (fun prev s => (s && !prev, s)) (b.prev :: sig) sig := by
+  induction sig generalizing b with
+  | nil => simp [Button.passes]
+  | cons s rest ih =>
+    rw [Button.passes, ih]
+    simp [Button.poll]
+
+theorem clickCount_eq_risingEdges (b : Button) (sig : List Bool) :
+    b.clickCount sig = Host.risingEdges b.prev sig := by
+  induction sig generalizing b with
+  | nil => simp [Button.clickCount, Button.passes, Host.risingEdges]
+  | cons s rest ih =>
+    have ih' := ih (b.poll s).1
+    simp only [Button.clickCount] at ih' ⊢
+    simp only [Button.passes, Host.risingEdges, List.filter_cons]
+    have hp : (b.poll s).1.prev = s := rfl
+    rw [hp] at ih'
+    have h2 : (b.poll s).2 = (s && !b.prev) := rfl
+    rw [h2]
+    by_cases h : (s && !b.prev) = true
+    · simp only [h, if_true, List.length_cons, ih']; omega
+    · simp only [h, ih']; simp
+
+theorem hostClicks_eq_risingEdges (hb : Host.Button) (sig : List Bool) :
+    Host.Button.clicks hb sig = Host.risingEdges hb.wasPressed sig := by
+  induction sig generalizing hb with
+  | nil => simp [Host.Button.clicks, Host.risingEdges]
+  | cons s rest ih =>
+    simp only [Host.Button.clicks, Host.risingEdges, ih]
+    rfl
+
+/-! ### Ultrasonic -/
+
+/-- copy of `Props.C15.pulses` -/
+def pulses' (l : List UEv) : List Nat := l.filterMap fun | .pulse t => some t | _ => none
+
+/-- copy of `Props.C15.Spaced` -/
+def Spaced' : Nat → List UEv → Prop
+  | _, [] => True
+  | last, .pulse t :: rest => (last ≠ 0 → last + 60 ≤ t) ∧ Spaced' last rest
+  | _, .stamp t :: rest => Spaced' t rest
+  | last, _ :: rest => Spaced' last rest
+
+section
+variable {α : Type} [Num α] [LT α] [LE α] [DecidableLT α] [DecidableLE α]
+variable [Add α] [Sub α] [Mul α] [Div α] [Neg α]
+
+theorem millis_ge (now : Nat) (ds : List Nat) : now ≤ (Ultra.millis now ds).1 := by
+  cases ds <;> simp [Ultra.millis]
+
+/-- clock and drift script at the trigger pulse -/
+def atPulse (lt now : Nat) (ds : List Nat) : Nat × List Nat :=
+  let m1 := Ultra.millis now ds
+  if lt ≠ 0 ∧ m1.1 - lt < 60 then Ultra.millis (m1.1 + (60 - (m1.1 - lt))) m1.2 else m1
+
+/-- events before the trigger pulse -/
+def preEvs (lt now : Nat) (ds : List Nat) : List UEv :=
+  let m1 := Ultra.millis now ds
+  if lt ≠ 0 ∧ m1.1 - lt < 60 then [.delay (60 - (m1.1 - lt))] else []
+
+theorem atPulse_ge (lt now : Nat) (ds : List Nat) : now ≤ (atPulse lt now ds).1 := by
+  simp only [atPulse]
+  have h1 := millis_ge now ds
+  split
+  · have h2 := millis_ge ((Ultra.millis now ds).1 + (60 - ((Ultra.millis now ds).1 - lt))) (Ultra.millis now ds).2
+    omega
+  · exact h1
+
+theorem atPulse_spaced (lt now : Nat) (ds : List Nat) (h : lt ≤ now) (h0 : lt ≠ 0) :
+    lt + 60 ≤ (atPulse lt now ds).1 := by
+  simp only [atPulse]
+  have h1 := millis_ge now ds
+  split
+  · have h2 := millis_ge ((Ultra.millis now ds).1 + (60 - ((Ultra.millis now ds).1 - lt))) (Ultra.millis now ds).2
+    omega
+  · rename_i hc
+    have : ¬ ((Ultra.millis now ds).1 - lt < 60) := fun hh => hc ⟨h0, hh⟩
+    omega
+
+/-- the attempt loop without accumulator -/
+def run : Nat → Ultra α → Nat → List Nat → List Nat → UOut α
+  | 0, u, now, es, ds =>
+    { st := u, now := now, result := if u.has then u.lastDistance else Num.ofInt 400, evs := [], echoes := es, drifts := ds }
+  | k + 1, u, now, es, ds =>
+    let m2 := atPulse u.lastTrigger now ds
+    let dur := es.headD 0
+    let m3 := Ultra.millis m2.1 m2.2
+    let evs := preEvs u.lastTrigger now ds ++ [.pulse m2.1, .echo dur, .stamp m3.1]
+    if 0 < dur then
+      { st := { lastTrigger := m3.1, lastDistance := Ultra.distanceOf dur, has := true }, now := m3.1,
+        result := Ultra.distanceOf dur, evs := evs, echoes := es.tail, drifts := m3.2 }
+    else
+      let r := run k { u with lastTrigger := m3.1 } m3.1 es.tail m3.2
+      { r with evs := evs ++ r.evs }
+
+theorem attempts_eq_run (k : Nat) (u : Ultra α) (now : Nat) (es ds : List Nat) (acc : List UEv) :
+    Ultra.attempts k u now es ds acc =
+      { run k u now es ds with evs := acc ++ (run k u now es ds).evs } := by
+  induction k generalizing u now es ds acc with
+  | zero => simp [Ultra.attempts, run]
+  | succ k ih =>
+    simp only [Ultra.attempts, run, atPulse, preEvs, Ultra.minInterval]
+    generalize es.headD 0 = dur
+    by_cases hc : u.lastTrigger ≠ 0 ∧ (Ultra.millis now ds).1 - u.lastTrigger < 60
+    · by_cases hd : 0 < dur
+      · simp [hc, hd]
+      · simp [hc, hd, ih]
+    · by_cases hd : 0 < dur
+      · simp [hc, hd]
+      · simp [hc, hd, ih]
+
+theorem measure_eq_run (u : Ultra α) (now : Nat) (es ds : List Nat) :
+    Ultra.measure u now es ds = run 3 u now es ds := by
+  rw [Ultra.measure, Ultra.maxAttempts, attempts_eq_run]
+  simp
+
+theorem pulses'_pre (lt now : Nat) (ds : List Nat) (t d s : Nat) (rest : List UEv) :
+    pulses' (preEvs lt now ds ++ [.pulse t, .echo d, .stamp s] ++ rest) = t :: pulses' rest := by
+  simp only [preEvs]
+  split <;> simp [pulses']
+
+theorem spaced'_pre (lt now : Nat) (ds : List Nat) (t d s : Nat) (rest : List UEv) :
+    Spaced' lt (preEvs lt now ds ++ [.pulse t, .echo d, .stamp s] ++ rest) ↔
+      (lt ≠ 0 → lt + 60 ≤ t) ∧ Spaced' s rest := by
+  simp only [preEvs]
+  split <;> simp [Spaced']
+
+/-- number of pulses -/
+theorem run_pulses_length (k : Nat) (u : Ultra α) (now : Nat) (es ds : List Nat) :
+    (pulses' (run k u now es ds).evs).length ≤ k ∧
+      (1 ≤ k → 1 ≤ (pulses' (run k u now es ds).evs).length) := by
+  induction k generalizing u now es ds with
+  | zero => simp [run, pulses']
+  | succ k ih =>
+    simp only [run]
+    split
+    · have := pulses'_pre u.lastTrigger now ds (atPulse u.lastTrigger now ds).1 (es.headD 0)
+        (Ultra.millis (atPulse u.lastTrigger now ds).1 (atPulse u.lastTrigger now ds).2).1 []
+      simp only [List.append_nil] at this
+      simp [this]
+    · simp only []
+      rw [← List.append_assoc, pulses'_pre]
+      have := (ih { u with lastTrigger := (Ultra.millis (atPulse u.lastTrigger now ds).1 (atPulse u.lastTrigger now ds).2).1 }
+        (Ultra.millis (atPulse u.lastTrigger now ds).1 (atPulse u.lastTrigger now ds).2).1 es.tail
+        (Ultra.millis (atPulse u.lastTrigger now ds).1 (atPulse u.lastTrigger now ds).2).2).1
+      simp only [List.length_cons]
+      omega
+
+/-- first positive echo among the first `k` -/
+def firstPos : Nat → List Nat → Option Nat
+  | 0, _ => none
+  | k + 1, es => if 0 < es.headD 0 then some (es.headD 0) else firstPos k es.tail
+
+theorem firstPos_three (es : List Nat) :
+    [es.getD 0 0, es.getD 1 0, es.getD 2 0].find? (0 < ·) = firstPos 3 es := by
+  rcases es with _ | ⟨a, _ | ⟨b, _ | ⟨c, es⟩⟩⟩ <;> simp [firstPos, List.find?] <;> (repeat' split) <;> simp_all
+
+theorem run_value (k : Nat) (u : Ultra α) (now : Nat) (es ds : List Nat) :
+    match firstPos k es with
+    | some d => (run k u now es ds).result = Ultra.distanceOf d ∧
+                (run k u now es ds).st.has = true ∧ (run k u now es ds).st.lastDistance = Ultra.distanceOf d
+    | none => (run k u now es ds).result = (if u.has then u.lastDistance else Num.ofInt 400) ∧
+              (run k u now es ds).st.has = u.has ∧ (run k u now es ds).st.lastDistance = u.lastDistance := by
+  induction k generalizing u now es ds with
+  | zero => simp [run, firstPos]
+  | succ k ih =>
+    simp only [run, firstPos]
+    by_cases hd : 0 < es.headD 0
+    · simp [hd]
+    · simp only [hd, if_false]
+      exact ih { u with lastTrigger := (Ultra.millis (atPulse u.lastTrigger now ds).1 (atPulse u.lastTrigger now ds).2).1 }
+        (Ultra.millis (atPulse u.lastTrigger now ds).1 (atPulse u.lastTrigger now ds).2).1 es.tail
+        (Ultra.millis (atPulse u.lastTrigger now ds).1 (atPulse u.lastTrigger now ds).2).2
+
+/-- spacing invariant -/
+theorem run_spacing (k : Nat) (u : Ultra α) (now : Nat) (es ds : List Nat) (hpast : u.lastTrigger ≤ now) :
+    Spaced' u.lastTrigger (run k u now es ds).evs ∧
+      (run k u now es ds).st.lastTrigger ≤ (run k u now es ds).now ∧
+      now ≤ (run k u now es ds).now := by
+  induction k generalizing u now es ds with
+  | zero => simp [run, Spaced', hpast]
+  | succ k ih =>
+    have h2 := atPulse_ge u.lastTrigger now ds
+    have h3 := millis_ge (atPulse u.lastTrigger now ds).1 (atPulse u.lastTrigger now ds).2
+    have hs : u.lastTrigger ≠ 0 → u.lastTrigger + 60 ≤ (atPulse u.lastTrigger now ds).1 :=
+      fun h0 => atPulse_spaced u.lastTrigger now ds hpast h0
+    simp only [run]
+    split
+    · have := spaced'_pre u.lastTrigger now ds (atPulse u.lastTrigger now ds).1 (es.headD 0)
+        (Ultra.millis (atPulse u.lastTrigger now ds).1 (atPulse u.lastTrigger now ds).2).1 []
+      simp only [List.append_nil] at this
+      simp only [this]
+      refine ⟨⟨hs, by simp [Spaced']⟩, Nat.le_refl _, by omega⟩
+    · simp only []
+      rw [← List.append_assoc, spaced'_pre]
+      have := ih { u with lastTrigger := (Ultra.millis (atPulse u.lastTrigger now ds).1 (atPulse u.lastTrigger now ds).2).1 }
+        (Ultra.millis (atPulse u.lastTrigger now ds).1 (atPulse u.lastTrigger now ds).2).1 es.tail
+        (Ultra.millis (atPulse u.lastTrigger now ds).1 (atPulse u.lastTrigger now ds).2).2 (Nat.le_refl _)
+      refine ⟨⟨hs, this.1⟩, this.2.1, by omega⟩
+
+/-- pulse times: all at or after `now`, ≥ 60 after a running stamp, and pairwise ≥ 60 apart -/
+theorem run_pulse_gap (k : Nat) (u : Ultra α) (now : Nat) (es ds : List Nat) (hpast : u.lastTrigger ≤ now)
+    (hrun : 0 < now) :
+    (∀ p ∈ pulses' (run k u now es ds).evs, now ≤ p ∧ (u.lastTrigger ≠ 0 → u.lastTrigger + 60 ≤ p)) ∧
+      List.Pairwise (fun a b => a + 60 ≤ b) (pulses' (run k u now es ds).evs) := by
+  induction k generalizing u now es ds with
+  | zero => simp [run, pulses']
+  | succ k ih =>
+    have h2 := atPulse_ge u.lastTrigger now ds
+    have h3 := millis_ge (atPulse u.lastTrigger now ds).1 (atPulse u.lastTrigger now ds).2
+    have hs : u.lastTrigger ≠ 0 → u.lastTrigger + 60 ≤ (atPulse u.lastTrigger now ds).1 :=
+      fun h0 => atPulse_spaced u.lastTrigger now ds hpast h0
+    simp only [run]
+    split
+    · have := pulses'_pre u.lastTrigger now ds (atPulse u.lastTrigger now ds).1 (es.headD 0)
+        (Ultra.millis (atPulse u.lastTrigger now ds).1 (atPulse u.lastTrigger now ds).2).1 []
+      simp only [List.append_nil] at this
+      simp only [this]
+      simp [pulses']
+      exact ⟨h2, hs⟩
+    · simp only []
+      rw [← List.append_assoc, pulses'_pre]
+      have := ih { u with lastTrigger := (Ultra.millis (atPulse u.lastTrigger now ds).1 (atPulse u.lastTrigger now ds).2).1 }
+        (Ultra.millis (atPulse u.lastTrigger now ds).1 (atPulse u.lastTrigger now ds).2).1 es.tail
+        (Ultra.millis (atPulse u.lastTrigger now ds).1 (atPulse u.lastTrigger now ds).2).2 (Nat.le_refl _) (by omega)
+      obtain ⟨ha, hp⟩ := this
+      simp only [] at ha
+      refine ⟨?_, ?_⟩
+      · intro p hp'
+        rcases List.mem_cons.1 hp' with rfl | hm
+        · exact ⟨h2, hs⟩
+        · have := ha p hm
+          refine ⟨by omega, fun h0 => ?_⟩
+          have := hs h0
+          omega
+      · refine List.pairwise_cons.2 ⟨?_, hp⟩
+        intro p hm
+        have := (ha p hm).2 (by omega)
+        omega
+
+end
+
 end Reduino.Lemmas.C15
